@@ -72,6 +72,12 @@ fn failing_programs() -> Vec<Prog> {
         ("promise-chain", "{ Promise.resolve({a: 1}).then(v => [v]).then(v => ({v: v})); }"),
         ("async-fn", "{ let f = async function(){ let o = {}; return [o]; }; f(); f().then(x => x); }"),
         ("rejected-caught", "{ Promise.reject(new Error('r')).catch(e => ({e: e})); }"),
+        ("promise-adopts-pending", "{ let inner = new Promise(function(){}); let outer = new Promise(function(res){ res(inner); }); outer.then(v => [v]); }"),
+        ("promise-adopts-pending-settled-later", "{ let r2; let inner = new Promise(function(r){ r2 = r; }); let outer = new Promise(function(res){ res(inner); }); outer.then(v => [v, {big: [1, 2, 3]}]); r2({v: 1}); }"),
+        ("then-returns-pending", "{ let inner = new Promise(function(){}); Promise.resolve(1).then(function(){ return inner; }).then(v => [v]); }"),
+        ("then-returns-pending-settled-later", "{ let r2; let inner = new Promise(function(r){ r2 = r; }); Promise.resolve(1).then(function(){ return inner; }).then(v => ({v: v})); Promise.resolve(2).then(function(){ r2([1, 2]); }); }"),
+        ("async-returns-pending", "{ let inner = new Promise(function(){}); let f = async function(){ let o = {a: [1]}; return inner; }; f().then(v => v); }"),
+        ("combinators-over-pending", "{ let p = new Promise(function(){}); Promise.all([p, Promise.resolve({a: 1})]).then(v => v); Promise.race([p, new Promise(function(){})]).then(v => v); }"),
         ("map-set-churn", "{ let m = new Map(); for (let i = 0; i < 5; i++) { m.set({i: i}, [i]); } let s = new Set(m.keys()); [...s].length; }"),
         ("regexp-json", "{ let r = /a(b)/g.exec('xab'); let j = JSON.parse(JSON.stringify({r: r, n: [1, {d: 2}]})); }"),
         ("cycle", "{ let a = {}; let b = {a: a}; a.b = b; let c = [a, b]; c.push(c); }"),
